@@ -176,7 +176,7 @@ def codec_queries(prop, tier):
     if prop == 13 and q:
         qs.append(rle_q(13, 3, 0, cap=2))   # a later run crossing the capacity (needs >= 2 runs before the end)
     # run-length boundaries of the tagged run-length varint
-    for (n, repl) in (((242, 241), (257, 256)) if q else ((241, 240), (242, 241), (256, 255), (257, 256), (242, 1))):
+    for (n, repl) in (((242, 241), (257, 256)) if q else ((241, 240), (242, 241), (256, 255), (257, 256))):
         for hdr in ((0,) if q else (0, 1)):
             if prop == 3:   # size predictor vs bytes written; the decode / metadata sections do not finish at these lengths
                 qs.append(rle_repl_q(prop, n, repl, hdr))
